@@ -1658,8 +1658,15 @@ fn c01gen(tr: &mut Option<std::fs::File>) {
     //     ends of the table and languages with several OpenType tags are where an index can run off), with and
     //     without further subtags, through shape() and through ShapePlan::new
     {
-        let f = FontSpec::basic(3);
+        // the font needs layout tables: the language is only translated to OpenType tags for a table that exists
+        let mut f = FontSpec::basic(3);
+        f.gsub = Some(Layout::single_feature(*b"liga", vec![Lookup::one(SubstSubtable::Single1 { coverage: Coverage::Glyphs(vec![2]), delta: -1 })]));
+        f.gpos = Some(Layout::single_feature(*b"kern", vec![Lookup::one(PosSubtable::Single1 { coverage: Coverage::Glyphs(vec![2]), value: ValueRecord::xadv(10), vf: ValueFormat::NonZero })]));
         let data = build(&f);
+        if let Ok(dir) = std::env::var("RBV_DUMP_DIR") {
+            let _ = std::fs::create_dir_all(&dir);
+            let _ = std::fs::write(format!("{}/generated-language-sweep.ttf", dir), &data);
+        }
         let mut codes: Vec<String> = Vec::new();
         for a in b'a'..=b'z' {
             for b2 in b'a'..=b'z' {
@@ -1671,7 +1678,9 @@ fn c01gen(tr: &mut Option<std::fs::File>) {
         }
         let mut bad = 0u32;
         for (k, code) in codes.iter().enumerate() {
-            let variants: Vec<String> = match k % 4 { 0 => vec![code.clone()], 1 => vec![code.to_uppercase(), format!("{}-CN", code)], 2 => vec![format!("{}-x-foo", code)], _ => vec![format!("{}-Latn-ZZ-fonipa", code), format!("x-hbot-{}", code)] };
+            // the plain code always, plus one rotating decorated form
+            let mut variants: Vec<String> = vec![code.clone()];
+            variants.push(match k % 5 { 0 => code.to_uppercase(), 1 => format!("{}-CN", code), 2 => format!("{}-x-foo", code), 3 => format!("{}-Latn-ZZ-fonipa", code), _ => format!("x-hbot-{}", code) });
             for lang in variants {
                 let d = data.clone();
                 let l2 = lang.clone();
